@@ -11,6 +11,10 @@ AREA = "blockalloc"
 PROPS_MODULE = "MorfuseModel.Props.C19"
 PROPS_FILE = os.path.join(LEAN, "MorfuseModel", "Props", "C19.lean")
 SIZES = [2, 3, 256]
+# element types of the harness's pools: e16 = 16-aligned owner of other elements (the default), s1/s2/s3 = 1-, 2-,
+# 3-byte types of alignment 1, h2 = 2 bytes of alignment 2 (info_t ends in padding for all four small ones)
+KINDS = ["e16", "s1", "s2", "s3", "h2"]
+SMALL = ["s1", "s2", "s3", "h2"]
 
 TRUSTED = [
     "Lean 4.33.0 kernel (lake build; leanchecker in the thorough tier)",
@@ -25,7 +29,7 @@ ASSUME = [
     "element destructors free only other live elements of the same pool, each at most once, and never allocate (DtorOk in the model; the harness element type owns a forest of other elements)",
     "MEM::Alloc never fails (malloc returning null is outside the model)",
     "single-threaded use (BlockAllocSafe and its locking belong to C20)",
-    "block sizes 2, 3 and 256 are the instantiations exercised against the real code; the theorems hold for every blocksize >= 2",
+    "block sizes 2, 3 and 256 and the element types e16 (16-aligned, 48+ bytes), s1/s2/s3 (1, 2, 3 bytes, alignment 1) and h2 (2 bytes, alignment 2) are the instantiations exercised against the real code; the theorems hold for every blocksize >= 2 and do not mention the element type",
 ]
 
 
@@ -57,6 +61,7 @@ class Monitor:
         self.blocks = 0
         self.allocs = 0
         self.frees = 0
+        self.owns = True
 
     def desc(self, p):
         out = []
@@ -86,7 +91,7 @@ class Monitor:
         if not t:
             return False
         if t[0] == "pool":
-            return len(t) == 2 and t[1] in ("2", "3", "256")
+            return len(t) in (2, 3) and t[1] in ("2", "3", "256") and (len(t) == 2 or t[2] in KINDS)
         if self.bs == 0:
             return False
         try:
@@ -98,7 +103,7 @@ class Monitor:
         if t[0] == "del":
             return len(n) == 1 and n[0] in self.live
         if t[0] == "own":
-            return (len(n) == 2 and n[0] in self.live and n[1] in self.live and n[0] != n[1]
+            return (self.owns and len(n) == 2 and n[0] in self.live and n[1] in self.live and n[0] != n[1]
                     and n[1] not in self.parent and not self.is_anc(n[1], n[0]))
         return False
 
@@ -129,6 +134,7 @@ class Monitor:
         if t[0] == "pool":
             self.__init__()
             self.bs = int(t[1])
+            self.owns = len(t) == 2 or t[2] == "e16"
             return None
         if t[0] == "alloc":
             try:
@@ -317,11 +323,13 @@ class Host:
         self.live, self.kids, self.parent = [], {}, {}
 
 
-def gen_case(rng, n, bs, count_every=1.0, cascade=True):
+def gen_case(rng, n, bs, count_every=1.0, cascade=True, kind=None):
     """mostly-legal history that walks the population up and down across block boundaries
     (empty <-> partial <-> full, several blocks), with ownership cascades, FreeAll, and a small
     stream of illegal lines (both sides must answer bad-op)."""
-    lines = ["pool %d" % bs]
+    lines = ["pool %d" % bs if kind is None else "pool %d %s" % (bs, kind)]
+    if kind in SMALL:
+        cascade = False
     h = Host()
     cap = (4 * bs + 2) if bs <= 3 else (3 * bs + 40)
     target = rng.randint(0, cap)
@@ -337,8 +345,11 @@ def gen_case(rng, n, bs, count_every=1.0, cascade=True):
             lines.append(["del %d" % bogus, "del 0", "own %d %d" % (bogus, 1), "own 1 1", "free 1", "alloc 1"][k])
             continue
         if r < 0.05:
-            # own that would create a cycle / double owner
-            if len(h.live) >= 2:
+            # own that would create a cycle / double owner (any own at all on a small element type)
+            if kind in SMALL and len(h.live) >= 2:
+                a, b = rng.sample(h.live, 2)
+                lines.append("own %d %d" % (a, b))
+            elif len(h.live) >= 2:
                 a, b = rng.sample(h.live, 2)
                 lines.append("own %d %d" % (a, b) if (b in h.parent or h.is_anc(b, a)) else "own %d %d" % (a, a))
             continue
@@ -382,13 +393,13 @@ def gen_case(rng, n, bs, count_every=1.0, cascade=True):
     return lines
 
 
-def exhaustive(bs, maxlen, with_own):
+def exhaustive(bs, maxlen, with_own, kind=None):
     """every legal history of exactly `maxlen` operations (alloc / del of any live element /
     freeall / optionally own of any legal pair), each followed by `count`; prefixes are observed
     line by line so only maximal histories are emitted.  Correspondence input, not proof."""
     def rec(prefix, live, parent, nxt, depth):
         if depth == 0:
-            yield ["pool %d" % bs] + prefix
+            yield ["pool %d" % bs if kind is None else "pool %d %s" % (bs, kind)] + prefix
             return
         yield from rec(prefix + ["alloc", "count"], live + (nxt,), parent, nxt + 1, depth - 1)
         for p in live:
@@ -434,6 +445,7 @@ class CovDiff(Diff):
         super().__init__(*a, **k)
         self.covs = {}
         self.by_bs = {}
+        self.by_kind = {}
 
     @staticmethod
     def fresh_cov():
@@ -453,6 +465,8 @@ class CovDiff(Diff):
             if t[0] == "pool":
                 bs, blocks, per, slot, owned = int(t[1]), 0, {}, {}, 0
                 self.by_bs[bs] = self.by_bs.get(bs, 0) + 1
+                k = t[2] if len(t) > 2 else "e16"
+                self.by_kind[k] = self.by_kind.get(k, 0) + 1
                 cov = self.covs.setdefault("bs%d" % bs, self.fresh_cov())
             elif t[0] == "alloc":
                 b, nb = int(kv["b"]), int(kv["blocks"])
@@ -527,13 +541,26 @@ def check(ctx):
     ctx.stats["exhaustive_histories"] = nexh
     ctx.stats["exhaustive_lengths"] = {"plain": exh_len, "with_own": own_len}
 
-    # 2. random histories of mixed lengths, all three block sizes
+    # 1b. the small element types (1, 2, 3 bytes; info_t ends in padding): every legal history of `small_len`
+    #     operations for block sizes 2 and 3, deterministic
+    small_len = 6 if quick else 8
+    nsmall = 0
+    for kind in SMALL:
+        for bs in (2, 3):
+            batch = [("exh:%s:bs%d:len%d:%d" % (kind, bs, small_len, j), c) for j, c in enumerate(exhaustive(bs, small_len, False, kind))]
+            nsmall += len(batch)
+            for j in range(0, len(batch), 4000):
+                bad += d.run_batch(batch[j:j + 4000])
+    ctx.stats["exhaustive_small_element_histories"] = nsmall
+
+    # 2. random histories of mixed lengths, all three block sizes, all element types
     ncases = 300 if quick else 3000
     batch = []
     for i in range(ncases):
         bs = SIZES[i % 3]
+        kind = KINDS[(i // 3) % len(KINDS)] if (i // 15) % 2 == 0 else None
         length = rng.choice([12, 60, 400] if bs <= 3 else [100, 1500, 6000])
-        batch.append(("random:bs%d:%d" % (bs, i), gen_case(rng, length, bs)))
+        batch.append(("random:bs%d:%s:%d" % (bs, kind or "e16", i), gen_case(rng, length, bs, kind=kind)))
         if len(batch) == 60:
             bad += d.run_batch(batch); batch = []
     bad += d.run_batch(batch)
@@ -543,15 +570,21 @@ def check(ctx):
              [(2, 100000), (3, 100000), (256, 100000)] * 3)
     for k, (bs, n) in enumerate(longs):
         bad += d.run_batch([("long:bs%d:%d" % (bs, k), gen_case(rng, n, bs, count_every=0.25 if bs <= 3 else 0.05))])
+    # ... and one per small element type (block size 256: the index needs a full byte)
+    for k, kind in enumerate(SMALL):
+        bs = [256, 3, 256, 2][k]
+        n = 8000 if quick else 50000
+        bad += d.run_batch([("long:%s:bs%d" % (kind, bs), gen_case(rng, n, bs, count_every=0.25 if bs <= 3 else 0.05, kind=kind))])
 
     ctx.oblige("correspondence harness/blockalloc.cpp == BlockAlloc model on %d histories" % d.cases, bad == 0,
                "%d differing cases" % bad, reported=True)
     ctx.samples = [gen_case(ctx.rng("sample"), 14, 2), gen_case(ctx.rng("sample3"), 14, 3)]
     ctx.stats["model_branch_coverage"] = d.covs
     ctx.stats["cases_by_blocksize"] = d.by_bs
+    ctx.stats["cases_by_element_type"] = d.by_kind
     cov = {
         "evaluations": d.cases, "distinct_nontrivial": len(d.distinct),
-        "rule": "histories of alloc / del (destroy + free, cascading through owned elements) / own / count / freeall over block sizes 2, 3, 256: every legal history of %d operations without ownership and of %d operations with ownership for block sizes 2 and 3 (count after every operation), random population walks across block boundaries with 3%% illegal lines, and long single histories; non-trivial = at least one accepted operation with an observation; distinct by SHA-1 of the op lines" % (exh_len, own_len),
+        "rule": "histories of alloc / del (destroy + free, cascading through owned elements) / own / count / freeall over block sizes 2, 3, 256 and element types of 1, 2, 3 bytes and a 16-aligned one: every legal history of %d operations without ownership and of %d operations with ownership for block sizes 2 and 3 (count after every operation), random population walks across block boundaries with 3%% illegal lines, and long single histories; non-trivial = at least one accepted operation with an observation; distinct by SHA-1 of the op lines" % (exh_len, own_len),
         "op_lines": d.lines, "op_histogram": d.hist, "model_answer_kinds": d.outkinds,
         "exhaustive": False,
     }
